@@ -166,6 +166,10 @@ def plan_c04(tier, seed):
         j = wf("C04", g, i, 1, m, "func", oracles=o, events_dep=False, tier=tier, race=True, id=f"C04-mem-{g}-i{i}-m{m}")
         j["no_race_report"] = True
         jobs.append(with_delay_fallback(j, 1 if tier == "quick" else 2))
+    # a process with a STREAMED and an ordinary out-port (real FIFO, see C17): the ordinary output reaches its consumer too
+    for fa in (-1, 1):
+        jobs.append({"id": f"C04-stream-mixed-out-ports-mo{fa}", "prop": "C04", "kind": "stream", "mode": "delay", "delay": 0, "budget": budget(tier, 20, 120), "oracles": [], "events_dep": False, "force_all": fa,
+                     "args": {"n": "1", "size": "1", "max": "3", "mixed": "1", "logcons": "1", "only_classes": "ordinary-output-not-delivered,hang,unexpected-outcome"}})
     return {"level": "model_checking", "native": True, "race_too": True, "rev_map_order": ("C04-g6b-i2-b1-m2", "C04-g8g-i2", "C04-g7c-i2-b1-m1", "C04-g8-i2", "C04-g9-"), "stages": [lambda ctx, prev: jobs, maporder_stage("C04", o, tier)],
             "rule": "every Mazurkiewicz trace (DPOR + sleep sets) of each scenario x configuration; delay bound 2 where the search does not close; MAPORDER pass: each map-range site forced to every other order on the default schedule with <= 1 delay; memory-level pass: some scenarios again on the race-instrumented build, where map operations and accesses to mutable struct fields are scheduling points too",
             "assumptions": BASE_ASSUMPTIONS + ["multi-in-port processes receive equally long streams; at most one process without out-ports"]}
@@ -282,9 +286,18 @@ def plan_c05(tier, seed):
                 nj["delay"] = 1
                 jobs.append(nj)
         return jobs
+    # histories left by a killed run of a TWO-output task (an output may be final while the task's temp dir is still
+    # there): re-run in place - if Run returns, everything is finalized and nothing is left
+    def crash_g7(ctx, prev):
+        cj = wf("C05", "g7", 1, 1, 1, "cmd", mode="dpor", oracles=["nohang"], tier=tier, events_dep=False, crash=True, disk_dep=True, id="C05-crash-g7-i1-m1-cmd")
+        cj["_snap"] = True
+        cj["snap_dir"] = os.path.join(ctx["scratch"], "snaps", cj["id"])
+        cj.pop("_native", None)
+        return [cj]
+    rerun_g7 = recovery_stage("C05", tier, "s", ["nohang", "c05"], crash=False, only_r1=True)
     iof = opfault_stages("C05", ["nohang", "c05", "c04"], tier, [("g3", 1, 1, "cmd", ""), ("g3", 1, 1, "func", ""), ("g7", 1, 1, "cmd", ""), ("g2", 1, 1, "cmd", "subdir"), ("g11", 1, 1, "cmd", "")] + ([] if tier == "quick" else [("g4", 1, 2, "cmd", ""), ("g14a", 1, 1, "cmd", ""), ("g8", 1, 1, "func", "")]))
-    return {"level": "model_checking", "native": True, "race_too": True, "rev_map_order": ("C05-g4-i3-runto", "C05-g10b-i1", "C05-g7c", "C05-g9-", "C05-g10-i1-b1-m2", "C05-g8g-i2", "C05-g13-i1-b1-m2"), "stages": [lambda ctx, prev: jobs, maporder_stage("C05", o, tier, graphs=("g8f", "g8g"), per_job=True)] + iof + [stream_first, stream_again],
-            "rule": "every Mazurkiewicz trace of each scenario with start/end/return events mutually dependent (every order not forced by happens-before); at the state where the main thread returns from Run: all started tasks ended, all reference outputs final, no temp dir / FIFO; no deadlock state; + a rename that fails with EXDEV (absolute destination on another device): stopping is fine, returning is not; every other map-iteration order forced for the parameter fan-out scenarios; single injected I/O error: the n-th file-system operation of the run fails with EIO, for every n (default schedule; thorough: + 1 delay) - stop, or return with everything in place; streaming producer with an ordinary second output: run, then run again in place - no FIFO / temp dir left when Run returns; memory-level pass: some scenarios again on the race-instrumented build, where map operations and accesses to mutable struct fields are scheduling points too",
+    return {"level": "model_checking", "native": True, "race_too": True, "rev_map_order": ("C05-g4-i3-runto", "C05-g10b-i1", "C05-g7c", "C05-g9-", "C05-g10-i1-b1-m2", "C05-g8g-i2", "C05-g13-i1-b1-m2"), "stages": [lambda ctx, prev: jobs, maporder_stage("C05", o, tier, graphs=("g8f", "g8g"), per_job=True)] + iof + [stream_first, stream_again, crash_g7, rerun_g7],
+            "rule": "(+ every distinct crash state of a two-output task re-run in place: a run that returns left nothing behind) every Mazurkiewicz trace of each scenario with start/end/return events mutually dependent (every order not forced by happens-before); at the state where the main thread returns from Run: all started tasks ended, all reference outputs final, no temp dir / FIFO; no deadlock state; + a rename that fails with EXDEV (absolute destination on another device): stopping is fine, returning is not; every other map-iteration order forced for the parameter fan-out scenarios; single injected I/O error: the n-th file-system operation of the run fails with EIO, for every n (default schedule; thorough: + 1 delay) - stop, or return with everything in place; streaming producer with an ordinary second output: run, then run again in place - no FIFO / temp dir left when Run returns; memory-level pass: some scenarios again on the race-instrumented build, where map operations and accesses to mutable struct fields are scheduling points too",
             "assumptions": BASE_ASSUMPTIONS}
 
 
@@ -397,6 +410,9 @@ def plan_c07(tier, seed):
     # the oversize process is rejected also when all its outputs already exist (its tasks would be skipped)
     for g, mx, cores, pre in (("g2", 1, [2], {"in0.txt.p": "p.out(in=in0.txt;)"}), ("g3", 2, [1, 3], {"in0.txt.p.q": "q.out(in=p.out(in=in0.txt;);)"})):
         jobs.append(wf("C07", g, 1, 1, mx, oracles=["nohang", "c07-oversize"], tier=tier, cores=cores, events_dep=False, pre=pre, id=f"C07-oversize-{g}-m{mx}-c{''.join(map(str, cores))}-outputs-exist"))
+    # slots come back after STREAMING tasks too (real FIFO, see C17): a task that needs every slot runs behind a streaming pair
+    jobs.append({"id": "C07-stream-then-task-needing-all-slots", "prop": "C07", "kind": "stream", "mode": "delay", "delay": 1, "budget": budget(tier, 30, 200), "oracles": [], "events_dep": False, "force_all": -1,
+                 "args": {"n": "1", "size": "1", "max": "2", "postcores": "2", "only_classes": "hang,unexpected-outcome,deadlock"}})
     # a workflow WITHOUT any slot (maxConcurrentTasks = 0): every process that asks for a core is oversize
     for g, cores in (("g2", [1]), ("g3", [1, 1]), ("g3", [0, 1]), ("g13", [1, 2])):
         jobs.append(wf("C07", g, 1, 1, 0, oracles=["nohang", "c07-oversize"], tier=tier, cores=cores, events_dep=False, id=f"C07-oversize-{g}-m0-c{''.join(map(str, cores))}"))
@@ -867,7 +883,7 @@ def short_after(after):
     return f[0] + ("->" + os.path.basename(f[-1]) if len(f) > 1 else "")
 
 
-def recovery_stage(prop, tier, depth_tag, oracles, crash=False):
+def recovery_stage(prop, tier, depth_tag, oracles, crash=False, only_r1=False):
     """for every distinct crash state collected by the previous stage: R1 (re-run as is) and
     R2 (remove _scipipe_tmp* and *.fifo, re-run)"""
     def stage(ctx, prev):
@@ -887,7 +903,7 @@ def recovery_stage(prop, tier, depth_tag, oracles, crash=False):
                     continue
                 seen.add(dk)
                 seed_dir = os.path.join(j["snap_dir"], str(cs["id"]))
-                for clean in (False, True):
+                for clean in ((False,) if only_r1 else (False, True)):
                     nj = copy.deepcopy(j)
                     for k in ("base", "_snap", "_consumed", "_fallback_delay", "snap_dir", "fault"):
                         nj.pop(k, None)
